@@ -1,0 +1,43 @@
+//! Observation hooks for external verification harnesses.
+//!
+//! Compiled only with the `verif-hooks` feature. A harness installs one global
+//! handler; the crate calls it at a few points of the FlushWorker protocol.
+//! The handler may block, which lets a harness decide when the worker
+//! proceeds. Without a handler every hook is a no-op.
+
+use std::sync::OnceLock;
+
+/// What happened, from the point of view of the request queue between the
+/// caller thread and the FlushWorker.
+#[derive(Debug, Clone, PartialEq, Eq)]
+pub enum VerifEvent {
+    /// The caller thread is about to send request `seq` to the worker.
+    Sent { seq: u64, kind: &'static str },
+    /// The worker is about to block in `recv`.
+    PreRecv,
+    /// The worker received request `seq`.
+    PostRecv { seq: u64, kind: &'static str },
+    /// The worker collected a batch: `writes` write requests (including the
+    /// one it received first) and optionally one trailing non-write request.
+    Batch {
+        writes: usize,
+        tail: Option<&'static str>,
+    },
+    /// The worker thread is about to exit.
+    WorkerExit { ok: bool },
+}
+
+type Handler = Box<dyn Fn(&VerifEvent) + Send + Sync + 'static>;
+
+static HANDLER: OnceLock<Handler> = OnceLock::new();
+
+/// Install the global handler. Returns false if one is already installed.
+pub fn set_handler(h: Handler) -> bool {
+    HANDLER.set(h).is_ok()
+}
+
+pub(crate) fn emit(ev: VerifEvent) {
+    if let Some(h) = HANDLER.get() {
+        h(&ev);
+    }
+}
